@@ -275,6 +275,36 @@ def roots(term, attr):
     return out
 
 
+def reads_of(terms, target):
+    """how is `target` read inside the given terms?  -> (number of whole reads, [partial subscript indices])"""
+    whole, partial = 0, []
+
+    def full_idx(idx):
+        if idx == FULL:
+            return True
+        if idx[0] == "tuple":
+            return all(x == FULL for x in idx[1])
+        return False
+
+    def rec(t, parent):
+        nonlocal whole
+        if t == target:
+            if parent is not None and parent[0] == "sub" and parent[1] == target and not full_idx(parent[2]) and parent[2][0] != "cmp":
+                partial.append(parent[2])
+            elif parent is not None and parent[0] == "store" and parent[1] == target:
+                pass          # being written, not read
+            else:
+                whole += 1
+            return
+        if isinstance(t, tuple):
+            for c in t:
+                if isinstance(c, tuple):
+                    rec(c, t)
+    for t in terms:
+        rec(t, None)
+    return whole, partial
+
+
 def base_of(t):
     while isinstance(t, tuple) and t[0] in ("phi", "store"):
         t = t[2] if t[0] == "phi" else t[1]
@@ -306,6 +336,19 @@ def dtype_of(t):
     return "as-given"
 
 
+def split_phi_row(row):
+    """a row literal whose fields are phi terms over the same condition is the phi of two row literals"""
+    if row[0] != "list":
+        return [row]
+    conds = {x[1] for x in row[1] if isinstance(x, tuple) and x[0] == "phi"}
+    if len(conds) != 1:
+        return [row]
+    c = next(iter(conds))
+    a = ("list", tuple(x[2] if isinstance(x, tuple) and x[0] == "phi" else x for x in row[1]))
+    b = ("list", tuple(x[3] if isinstance(x, tuple) and x[0] == "phi" else x for x in row[1]))
+    return split_phi_row(a) + split_phi_row(b)
+
+
 def run(prog, rep, tier):
     f = need(prog, LG + "LGANM.sample")
     S = Sym(prog, inline=inline_helpers(prog, "sempler.lganm", keep=[LG + "_parse_interventions"], also=[U + "sampling_matrix"]))
@@ -314,19 +357,52 @@ def run(prog, rep, tier):
     if len(ctor) != 1 or len(ctor[0].args) < 2:
         raise Inconclusive("LGANM.sample: expected exactly one NormalDistribution(mean, covariance) construction", f.node)
     mean_t, cov_t = ctor[0].args[0], ctor[0].args[1]
-    rW = roots(mean_t, "W")
-    rm = roots(mean_t, "means")
-    rv = roots(cov_t, "variances")
-    if not (len(rW) == 1 and len(rm) == 1 and len(rv) == 1 and roots(cov_t, "W") == rW):
-        raise Inconclusive("LGANM.sample: could not identify the working copies of W / means / variances in the formula "
-                           "(W: %d, means: %d, variances: %d)" % (len(rW), len(rm), len(rv)), ctor[0].node)
-    Wt, mt, vt = rW[0], rm[0], rv[0]
+    # the working copies: looked for in the formula first, then in every fact of the function (largest = latest version)
+    everything = []
+    for fact in S.facts:
+        if fact.qname == f.qname:
+            everything += [getattr(fact, "value", None), getattr(fact, "base", None)] + list(getattr(fact, "args", []) or [])
+    for li_ in S.loopinfo.values():
+        if li_["func"] == f.qname:
+            everything += list(li_["init"].values()) + list(li_["next"].values())
+    everything = [t for t in everything if t is not None]
+
+    def latest(attr, prefer):
+        c = roots(prefer, attr)
+        if len(c) == 1:
+            return c[0], True
+        cands = []
+        for t in everything:
+            for r in roots(t, attr):
+                if r not in cands:
+                    cands.append(r)
+        if not cands:
+            return None, False
+        cands.sort(key=lambda t: len(repr(t)))
+        big = cands[-1]
+        # every other candidate must be an earlier version (a sub-term) of the latest one
+        if all(mentions(big, c_) for c_ in cands):
+            return big, False
+        return None, False
+    (Wt, inW), (mt, inM), (vt, inV) = latest("W", mean_t), latest("means", mean_t), latest("variances", cov_t)
+    if Wt is None or mt is None or vt is None:
+        raise Inconclusive("LGANM.sample: could not identify the working copies of W / means / variances", ctor[0].node)
+    formula_ok = inW and inM and inV and roots(cov_t, "W") == [Wt]
+    # every entry of W must be able to reach the result: W is an arbitrary DAG matrix, not a triangular one
+    whole, partial = reads_of(everything + [mean_t, cov_t], Wt)
+    if partial and not whole:
+        rep.bad("FORMULA.whole-W", fwhere(f, ctor[0].node, construct="reads of the weight matrix"),
+                "the weight matrix is only ever read through partial subscripts (%s): entries outside them - e.g. edges from a higher to a lower index - never reach the result" % ", ".join(sorted({fmt(i_)[:30] for i_ in partial})[:3]))
+    else:
+        rep.ok("FORMULA.whole-W", fwhere(f, ctor[0].node, construct="reads of the weight matrix"), "the whole (intervened) weight matrix enters the computation")
     # ---- FORMULA
+    if not formula_ok:
+        rep.unk("FORMULA.mean", fwhere(f, ctor[0].node, construct="population mean"), "the population moments are not a closed-form expression of the working copies (computed by a loop?): equality with (I - W^T)^-1 mu is not decided")
     M = MNF(vectors=[mt, vt])
     A = rinv(add(rI(), M.transpose(rA(Wt)), -1))
     ref_mean = mul(A, rA(mt))
     ref_cov = mul(mul(A, rD(rA(vt))), M.transpose(A))
-    for name, term, ref in (("mean", mean_t, ref_mean), ("covariance", cov_t, ref_cov)):
+    for name, term, ref in ((("mean", mean_t, ref_mean), ("covariance", cov_t, ref_cov)) if formula_ok else ()):
         w = fwhere(f, ctor[0].node, construct="population " + name)
         try:
             got = M.nf(term)
@@ -431,10 +507,14 @@ def run(prog, rep, tier):
     sp, _ = run_function(Sp, fp)
     apps = [c for c in Sp.select("call", qname=fp.qname) if c.callkind == "method" and c.target == ".append"]
     key, val = ("key", ("param", "interventions_dict")), ("val", ("param", "interventions_dict"))
-    rows = [c.args[0] for c in apps if c.args]
+    rows = []
+    for c in apps:
+        if c.args:
+            rows += split_phi_row(c.args[0])
     r_tuple = ("list", (key, ("sub", val, ("const", 0)), ("sub", val, ("const", 1))))
     r_scalar = ("list", (key, val, ("const", 0)))
     r_scalar_f = ("list", (key, val, ("const", 0.0)))
+    rows = [r for i_, r in enumerate(rows) if r not in rows[:i_]]
     ok = len(rows) == 2 and r_tuple in rows and (r_scalar in rows or r_scalar_f in rows)
     rep.check("LAYOUT.producer", ok, fwhere(fp), "rows are [target, p0, p1] and [target, p, 0]: a scalar parameter means variance 0",
               "row layout is %s, expected [target, params[0], params[1]] and [target, params, 0]" % [fmt(r) for r in rows])
